@@ -212,7 +212,9 @@ def decoder_cases(draw: Any, names: list[str], max_items: int = 14,
         n_items = _shipped_n_items(name)
     else:
         if kind == "gen":
-            ic = draw(gen_bp.instances(classes=gen_bp.CLASSES_CHEAP[:4],
+            # all size classes: bins above 10^9 (int32 edge, huge) are
+            # rejected by InstanceSpace with ValueError - counted
+            ic = draw(gen_bp.instances(classes=gen_bp.CLASSES_ALL,
                                        max_items=max_items))
         elif kind == "tiny":
             ic = draw(gen_bp.instances(classes=("tiny", "small"),
